@@ -2,8 +2,8 @@
 package clientx
 
 import (
-	"errors"
 	"context"
+	"errors"
 	"net"
 	"runtime"
 	"sync/atomic"
